@@ -382,6 +382,10 @@ pub enum VOp {
     ForgedReceive { user: u8, via: u8, amount: Uint128 },
     /// re-point the vault's fee collector: 0 the original collector, 1 / 2 two plain accounts
     SetCollector { which: u8 },
+    /// vault-router FlashLoan with an odd shape: 0 no assets at all (a no-op), 1 the same asset twice
+    /// (nested loans are disabled), 2 a payload in which the router itself deposits part of the loan
+    /// into the vault (deposits are refused while a loan is outstanding). None may change the world.
+    RouterOdd { user: u8, shape: u8, amt: VAmt },
 }
 
 #[derive(Clone, Debug, Serialize, Deserialize)]
@@ -492,6 +496,7 @@ pub fn vop(w_liq: u32, w_loan: u32, w_misc: u32, depth: u32) -> BoxedStrategy<VO
         1 => (0u8..5, vamt(), 1u8..6).prop_map(|(user, amt, mode)| VOp::DepositMismatch { user, amt, mode }),
         1 => (0u8..4, 0u8..2, prop_oneof![Just(1u128), Just(1000), gen::amount(1, 1u128 << 70)]).prop_map(|(user, via, a)| VOp::ForgedReceive { user, via, amount: Uint128::new(a) }),
         1 => (0u8..3).prop_map(|which| VOp::SetCollector { which }),
+        1 => (0u8..4, 0u8..3, loan_amt()).prop_map(|(user, shape, amt)| VOp::RouterOdd { user, shape, amt }),
     ]
     .boxed()
 }
@@ -1027,6 +1032,50 @@ pub fn run_history(c: &VCase, rec: &Rec, value_clauses: bool) -> Result<HistoryS
                     rec.class("collector_repointed");
                 }
             }
+            VOp::RouterOdd { user, shape, amt } => {
+                let usr = vw.user(*user);
+                let amount = resolve(amt, before.balance, 0).max(1);
+                let router = vw.router.clone();
+                let v = vw.vault.clone();
+                let pay = vw.purse_pay_msg(amount / 2 + 10, &router);
+                let (assets, msgs): (Vec<white_whale_std::pool_network::asset::Asset>, Vec<CosmosMsg>) = match *shape % 3 {
+                    0 => (vec![], vec![pay]),
+                    1 => (vec![asset(&vw.info, amount), asset(&vw.info, amount)], vec![pay]),
+                    _ => {
+                        let part = (amount / 2).max(1);
+                        let dep: CosmosMsg = match &vw.info {
+                            AssetInfo::NativeToken { denom } => WasmMsg::Execute {
+                                contract_addr: v.to_string(),
+                                msg: to_json_binary(&vault::ExecuteMsg::Deposit { amount: Uint128::new(part) }).unwrap(),
+                                funds: vec![coin(part, denom)],
+                            }
+                            .into(),
+                            AssetInfo::Token { .. } => WasmMsg::Execute {
+                                contract_addr: v.to_string(),
+                                msg: to_json_binary(&vault::ExecuteMsg::Deposit { amount: Uint128::new(part) }).unwrap(),
+                                funds: vec![],
+                            }
+                            .into(),
+                        };
+                        (vec![asset(&vw.info, amount)], vec![dep, pay])
+                    }
+                };
+                let snap0 = vw.w.snapshot();
+                let r = vw.w.exec(&usr, &router, &vault_router::ExecuteMsg::FlashLoan { assets, msgs }, &[]);
+                rec.class(&format!("router_odd_shape{}_{}", *shape % 3, if r.is_ok() { "ok" } else { "rejected" }));
+                if *shape % 3 == 1 && r.is_ok() {
+                    // no listed clause forbids it by itself, and the ledger model below does not know
+                    // such loans: the history ends here, unjudged
+                    rec.class("router_same_asset_twice_accepted_unjudged");
+                    return Ok(st);
+                }
+                ensure!(
+                    *shape % 3 != 2 || r.is_err(),
+                    "step {step}: a vault-router loan whose payload deposits part of the loan into the vault (shares minted while the loan is outstanding) was accepted"
+                );
+                let snap1 = vw.w.snapshot();
+                ensure!(snap1 == snap0, "step {step}: vault-router FlashLoan of odd shape {} changed the world: {}", *shape % 3, snap0.diff(&snap1));
+            }
             VOp::DepositMismatch { user, amt, mode } => {
                 let usr = vw.user(*user);
                 let amount = resolve(amt, before.balance, vw.w.bal(&vw.info, &usr)).min(1u128 << 110);
@@ -1196,6 +1245,7 @@ pub fn apply_ops_unjudged(vw: &mut VaultWorld, ops: &[VOp]) {
                 };
                 let _ = vw.set_collector(&to);
             }
+            VOp::RouterOdd { .. } => {}
             VOp::DepositMismatch { user, amt, mode } => {
                 let usr = vw.user(*user);
                 let amount = resolve(amt, bal, vw.w.bal(&vw.info, &usr)).min(1u128 << 110);
